@@ -691,3 +691,29 @@ add("C05", "forward peek loses its bound check", "sqlglot/parsers/teradata.py",
 add("C05", "backward peek without the lower-bound test", P,
     "        if self._index >= 2:\n            pre_volatile_token = self._tokens[self._index - 2]\n        else:\n            pre_volatile_token = None\n",
     "        pre_volatile_token = self._tokens[self._index - 2]\n", "C05.m")
+
+add("C05", "handler renders its operand twice (exponential on nested negation)", G,
+    "        this_sql = self.sql(expression, \"this\")\n        sep = \" \" if this_sql[0] == \"-\" else \"\"\n        return f\"-{sep}{this_sql}\"",
+    "        sep = \" \" if self.sql(expression, \"this\").startswith(\"-\") else \"\"\n        return f\"-{sep}{self.sql(expression, 'this')}\"", "C05.n")
+add("C07", "indent splits on carriage returns that _replace_line_breaks does not hide", G,
+    "        lines = sql.split(\"\\n\")", "        lines = re.split(r\"\\r\\n|\\r|\\n\", sql)", "C07.e")
+add("C07", "benign: indent splits with a compiled pattern for the newline only", G,
+    "        lines = sql.split(\"\\n\")", "        lines = re.split(r\"\\n\", sql)", "silent", 0)
+add("C08", "revert: lambda parameter type embedded once per occurrence", P,
+    "exp.Cast(this=dot_or_id, to=typ.copy())", "exp.Cast(this=dot_or_id, to=typ)", "C08.g")
+add("C08", "alias identifier looked up in a dict embedded without copy", "sqlglot/optimizer/qualify_tables.py",
+    "                    column.set(\"table\", table_alias.copy())", "                    column.set(\"table\", table_alias)", "C08.g")
+add("C15", "class body extends the base parser's trie in place", "sqlglot/parsers/teradata.py",
+    "    SET_TRIE = new_trie(key.split(\" \") for key in SET_PARSERS)",
+    "    SET_TRIE = new_trie(((\"QUERY_BAND\",),), parser.Parser.SET_TRIE)", "C15.c")
+add("C18", "typed lookup converts the registered column types in place", SCHEMA,
+    "                schema = {\n                    col: self._to_data_type(dtype) if isinstance(dtype, str) else dtype\n                    for col, dtype in schema.items()\n                }\n",
+    "                for col, dtype in schema.items():\n                    if isinstance(dtype, str):\n                        schema[col] = self._to_data_type(dtype)\n", "C18.d")
+add("C19", "one shared simplifier generator instance for all callers", "sqlglot/optimizer/simplify.py",
+    "    return Gen().gen(expression, comments=comments)\n",
+    "    return _GEN.gen(expression, comments=comments)\n", "C19.d",
+    extra=[("sqlglot/optimizer/simplify.py", "GEN_DISPATCH = _build_gen_dispatch()\n", "GEN_DISPATCH = _build_gen_dispatch()\n\n_GEN = Gen()\n")])
+add("C19", "revert: jsonpath resolves Dialect through the lazy package hook", "sqlglot/jsonpath.py",
+    "    from sqlglot.dialects.dialect import Dialect\n", "    from sqlglot.dialects import Dialect\n", "C19.f")
+add("C19", "dialect module imports sibling dialects through the package hook", "sqlglot/dialects/athena.py",
+    "from sqlglot.dialects.trino import Trino\nfrom sqlglot.dialects.hive import Hive\n", "from sqlglot.dialects import Hive, Trino\n", "C19.f")
